@@ -673,6 +673,14 @@ fn primitive<'s>(input: &mut &'s str) -> PResult<Option<BoundSet>, SemverParseEr
     Parser::map(
         (operation, preceded(space0, partial_version)),
         |parsed| match parsed {
+            // `>x` / `<x`: nothing is allowed
+            (GreaterThan | LessThan, Partial { major: None, .. }) => {
+                BoundSet::at_most(Predicate::Excluding((0, 0, 0, 0).into()))
+            }
+            // `<=x` / `=x`: nothing is forbidden
+            (LessThanEquals | Exact, Partial { major: None, .. }) => {
+                BoundSet::at_least(Predicate::Including((0, 0, 0).into()))
+            }
             (GreaterThanEquals, partial) => {
                 BoundSet::at_least(Predicate::Including(partial.into()))
             }
@@ -925,6 +933,9 @@ fn tilde_gt<'s>(input: &mut &'s str) -> PResult<Option<&'s str>, SemverParseErro
 
 fn tilde<'s>(input: &mut &'s str) -> PResult<Option<BoundSet>, SemverParseError<&'s str>> {
     Parser::map((tilde_gt, partial_version), |parsed| match parsed {
+        (_, Partial { major: None, .. }) => {
+            BoundSet::at_least(Predicate::Including((0, 0, 0).into()))
+        }
         (
             Some(_gt),
             Partial {
@@ -1009,6 +1020,9 @@ fn caret<'s>(input: &mut &'s str) -> PResult<Option<BoundSet>, SemverParseError<
     Parser::map(
         preceded((literal("^"), space0), partial_version),
         |parsed| match parsed {
+            Partial { major: None, .. } => {
+                BoundSet::at_least(Predicate::Including((0, 0, 0).into()))
+            }
             Partial {
                 major: Some(0),
                 minor: None,
@@ -1084,13 +1098,7 @@ fn hyphen<'s>(input: &mut &'s str) -> PResult<Option<BoundSet>, SemverParseError
                 minor: None,
                 patch: None,
                 ..
-            } => Predicate::Excluding(Version {
-                major: 0,
-                minor: 0,
-                patch: 0,
-                pre_release: vec![Identifier::Numeric(0)],
-                build: vec![],
-            }),
+            } => Predicate::Unbounded,
             Partial {
                 major: Some(major),
                 minor: None,
@@ -1122,6 +1130,9 @@ fn hyphen<'s>(input: &mut &'s str) -> PResult<Option<BoundSet>, SemverParseError
                 Bound::Lower(Predicate::Including(lower.into())),
                 Bound::Upper(upper),
             )
+        } else if upper == Predicate::Unbounded {
+            // ` - x`: like every other bare wildcard
+            BoundSet::at_least(Predicate::Including((0, 0, 0).into()))
         } else {
             BoundSet::at_most(upper)
         };
